@@ -62,11 +62,21 @@ Theorem hidden_mode_swaps_whole_channels :
 Proof. exact mixup_hidden_whole_channel. Qed.
 Print Assumptions hidden_mode_swaps_whole_channels.
 
-(* 3. Class targets (num_classes > 1): row i of the returned target is
+(* 3. The returned target is all-nan (no raise) exactly for mutual-information scores with a ZERO sum in feature
+      mode -- outside the property's quantifier (scores >= 0, positive sum), stated so that the hypothesis
+      `ym <> YMNaN` of the next two theorems is seen to cost nothing inside it. *)
+Theorem nan_target_iff_zero_sum_mi :
+  forall x y nc mt mi dr xm ym,
+    feature_mixup x y nc mt mi dr = Some (xm, ym) ->
+    (ym = YMNaN <-> mt = MixFeature /\ exists m, mi = Some m /\ qsum m == 0).
+Proof. exact mixup_nan_iff. Qed.
+Print Assumptions nan_target_iff_zero_sum_mi.
+
+(* 3a. Class targets (num_classes > 1): row i of the returned target is
         lam_i * onehot(y_i) + (1 - lam_i) * onehot(y_p)      with the SAME partner p = perm[i] as the features. *)
 Theorem class_target_is_convex_mix_with_same_partner :
   forall x y nc mt mi dr xm ym,
-    feature_mixup x y nc mt mi dr = Some (xm, ym) -> nc <> 1%nat ->
+    feature_mixup x y nc mt mi dr = Some (xm, ym) -> nc <> 1%nat -> ym <> YMNaN ->
     exists ys rows, y = YIdx ys /\ ym = YMClass rows /\ length rows = length x /\
       forall i row, nth_error rows i = Some row ->
         exists lam p yi yp,
@@ -79,7 +89,7 @@ Print Assumptions class_target_is_convex_mix_with_same_partner.
 (* 3b. Scalar targets (num_classes = 1): lam_i * y_i + (1 - lam_i) * y_p, same partner. *)
 Theorem scalar_target_is_convex_mix_with_same_partner :
   forall x y mt mi dr xm ym,
-    feature_mixup x y 1 mt mi dr = Some (xm, ym) ->
+    feature_mixup x y 1 mt mi dr = Some (xm, ym) -> ym <> YMNaN ->
     exists vals, ym = YMScalar vals /\ length vals = length x /\
       forall i v, nth_error vals i = Some v ->
         exists lam p yi yp,
@@ -89,8 +99,8 @@ Theorem scalar_target_is_convex_mix_with_same_partner :
 Proof. exact mixup_scalar_target. Qed.
 Print Assumptions scalar_target_is_convex_mix_with_same_partner.
 
-(* 4. lam is in [0,1] in every mode (beta rates in [0,1]; MI scores non-negative with positive sum — positivity of
-      the sum is implied by the function returning at all) ... *)
+(* 4. lam is in [0,1] in every mode (beta rates in [0,1]; MI scores non-negative with POSITIVE SUM: an explicit
+      hypothesis) ... *)
 Theorem lambda_in_unit_interval :
   forall mt mi dr,
     Forall (fun r => 0 <= r <= 1) (rates dr) ->
@@ -104,7 +114,7 @@ Theorem class_targets_are_distributions :
   forall x y nc mt mi dr xm rows,
     feature_mixup x y nc mt mi dr = Some (xm, YMClass rows) -> nc <> 1%nat ->
     Forall (fun r => 0 <= r <= 1) (rates dr) ->
-    (mt = MixFeature -> exists m, mi = Some m /\ Forall (fun v => 0 <= v) m) ->
+    (mt = MixFeature -> exists m, mi = Some m /\ Forall (fun v => 0 <= v) m /\ 0 < qsum m) ->
     forall row, In row rows -> Forall (fun v => 0 <= v) row /\ qsum row == 1.
 Proof. exact mixup_class_distribution. Qed.
 Print Assumptions class_targets_are_distributions.
@@ -116,11 +126,11 @@ Theorem convex_mix_between :
 Proof. intros lam a b H. split; [apply cvx_between|apply cvx_between']; exact H. Qed.
 Print Assumptions convex_mix_between.
 
-(* 5. Feature mode: lam_i = (mutual-information mass of the columns row i keeps) / (total mass). *)
+(* 5. Feature mode, scores with a positive sum: lam_i = (mutual-information mass of the columns row i keeps) /
+      (total mass); mrow is row i of the very mask that decides the feature swaps (mask_at). *)
 Theorem feature_mode_lambda_is_mi_share :
-  forall x y nc mi dr xm ym,
-    feature_mixup x y nc MixFeature (Some mi) dr = Some (xm, ym) ->
-    0 < qsum mi /\
+  forall mi dr,
+    0 < qsum mi ->
     forall i lam, nth_error (mixup_lams MixFeature (Some mi) dr) i = Some lam ->
       exists mrow, nth_error (draw_mask (rates dr) (unif dr)) i = Some mrow /\
                    lam == kept_mass mi mrow / qsum mi.
@@ -180,4 +190,10 @@ Proof. vm_compute. reflexivity. Qed.
 (* a raise: class index outside [0, num_classes) *)
 Example out_of_range_class_raises :
   feature_mixup ex_x (YIdx [0%nat; 3%nat]) 3 MixNone None ex_dr = None.
+Proof. vm_compute. reflexivity. Qed.
+
+(* zero-sum scores: features are mixed as usual, the target is all-nan, nothing raises *)
+Example zero_sum_mi_gives_nan_target :
+  mixup_agrees ex_x (YIdx [0%nat; 2%nat]) 3 MixFeature (Some [0; 0]) ex_dr 0
+    [[[1;2];[7;8]]; [[1;2];[7;8]]]%Z YMNaN = true.
 Proof. vm_compute. reflexivity. Qed.
